@@ -616,7 +616,7 @@ func genEqLeaf(r *rand.Rand) V {
 }
 
 var eqForms = []string{"n", "n", "n", "a", "as", "p"}
-var eqOps = []string{"c1", "c2", "c3", "c4", "c5", "c6", "c1", "c2", "-", "u1:" + hx("~=") + ":" + hx("fuzzy"), "u2:" + hx("=") + ":" + hx("comparison"), "c0", "c9", "u3:" + hx("in") + ":" + hx("member")}
+var eqOps = []string{"c1", "c2", "c3", "c4", "c5", "c6", "c1", "c2", "-", "u1:" + hx("~=") + ":" + hx("fuzzy"), "u2:" + hx("=") + ":" + hx("comparison"), "c0", "c9", "u3:" + hx("in") + ":" + hx("member"), "v1:" + hx("~~") + ":" + hx("list"), "v1:" + hx("~~") + ":" + hx("list")}
 var eqKws = []string{"kw", "k2", "keyword", "", "KW"}
 
 // swapCase inverts the case of every ASCII letter
